@@ -131,7 +131,26 @@ def run(prop, tier):
         index[rid] = dict(probe="sampled object vs the object rebuilt from its visible data", sampled=o1, rebuilt=o2, **c)
         rid += 1
         nhist += 1
+    # the same for an edit of the baseline followed by update_outcomes() (the documented way to change it): explicitly specified combination
+    # outcomes are the values given, whatever the baseline was when the object was created
+    nedit = 0
+    for c in [x for x in cases_all if x["n"] >= 2 and x["explicit"]][1:: max(1, len(cases_all) // 400)]:
+        co, names = make_covout(at, c)
+        try:
+            co.baseline = float(co.baseline) + 0.375
+            co.update_outcomes()
+            rebuilt = _Covout("par", "pop", dict(co.progs), cov_interaction=co.cov_interaction, imp_interaction=co.imp_interaction, baseline=co.baseline)
+            cv = {names[i]: np.array([float(fr(c["cov"][i]))]) for i in range(c["n"])}
+            o1, o2 = float(co.get_outcome(cv)), float(rebuilt.get_outcome(cv))
+        except Exception as ex:
+            V.violation("C12 baseline edit / rebuild raised %s" % type(ex).__name__, dict(case=c, error=str(ex)[:200]))
+            continue
+        records.append(dict(id=rid, kind="hist", obs1=FX.fix(o1), obs2=FX.fix(o2)))
+        index[rid] = dict(probe="object after a baseline edit vs the object rebuilt from its visible data", edited=o1, rebuilt=o2, **c)
+        rid += 1
+        nedit += 1
     cov["sample_history_probes"] = nhist
+    cov["baseline_edit_history_probes"] = nedit
     # monotonicity pairs: raise one coverage to the next grid value
     npairs = 0
     for key, d in by_key.items():
